@@ -6,7 +6,9 @@
    (3) FindMin/FindMax(+By) at float64; (4) Sum as a chain of correctly rounded
    additions; (5) Sum never returns -0, float64(len), Mean, Abs, Clamp, InRange,
    Compare/Less/Equal; (6) Range after a549427; (7) "%.2f" followed by
-   ParseFloat; (8) the 64-bit wire codec; (9) ByKey.
+   ParseFloat; (8) the 64-bit wire codec; (9) ByKey;
+   (10) an integer position of every float64 on the number line, strictly monotone under <, and with it the
+   termination of the Range loops.
 
    Flocq's theorems about [Bplus], [Bdiv], [Bcompare] … are used, not re-proved;
    they depend on the standard library's axioms for the classical reals. *)
@@ -18,7 +20,7 @@ From Gogu Require Import Base C13_ModelFloat.
 
 
 (* ================= (1) order embedding ================= *)
-Open Scope R_scope.
+Local Open Scope R_scope.
 
 (* extended value: infinities beyond every finite float64 *)
 Definition xval (x : f64) : R :=
@@ -94,7 +96,7 @@ Proof. destruct x; try discriminate. intros _. now destruct y as [|[|]| |[|] ? ?
 
 
 (* ================= (2) running extremum, generic ================= *)
-Open Scope R_scope.
+Local Open Scope R_scope.
 
 Section Ext.
   Context {A : Type}.
@@ -213,7 +215,7 @@ Qed.
 
 
 (* ================= (3) FindMin / FindMax (+By) ================= *)
-Open Scope R_scope.
+Local Open Scope R_scope.
 
 Definition nonan_key (k : f64 -> f64) (x : f64) : Prop := is_nan (k x) = false.
 
@@ -318,7 +320,7 @@ Qed.
 
 
 (* ================= (4) Sum ================= *)
-Open Scope R_scope.
+Local Open Scope R_scope.
 
 Notation fexp64 := (FLT_exp (3 - 1024 - 53) 53).
 Definition fmt64 (r : R) : Prop := generic_format radix2 fexp64 r.
@@ -403,7 +405,7 @@ Qed.
 
 
 (* ================= (5) -0, Mean, Abs, Clamp, InRange, Compare ================= *)
-Open Scope R_scope.
+Local Open Scope R_scope.
 
 (* ---- Sum never returns -0 ---- *)
 Lemma finite_neg_lt0 (m : positive) e H : B2R (B754_finite true m e H : f64) < 0.
@@ -606,7 +608,7 @@ Qed.
 
 
 (* ================= (6) Range ================= *)
-Open Scope R_scope.
+Local Open Scope R_scope.
 
 Lemma frange_up_eq fuel i step e acc :
   frange_up fuel i step e acc =
@@ -778,7 +780,7 @@ Proof. unfold frange_right. destruct (frange cap args); auto. now rewrite rev_ap
 
 
 (* ================= (7) two-decimal rounding ================= *)
-Open Scope R_scope.
+Local Open Scope R_scope.
 
 Lemma cents_spec m e : cents m e = ZnearestE (F2R (Float radix2 (Zpos m) e) * 100).
 Proof.
@@ -904,7 +906,7 @@ Qed.
 
 
 (* ================= (8) wire codec ================= *)
-Open Scope Z_scope.
+Local Open Scope Z_scope.
 
 Lemma bounded_cases m e : bounded 53 1024 m e = true ->
   (Z.pos m < two52 /\ e = -1074) \/ (two52 <= Z.pos m < 2 * two52 /\ -1074 <= e <= 971).
@@ -956,7 +958,7 @@ Proof.
     rewrite Z.mod_add by (unfold two52; lia). apply Z.mod_small; lia.
 Qed.
 
-Open Scope R_scope.
+Local Open Scope R_scope.
 (* binary_normalize on the mantissa and exponent of a float gives the float back *)
 Lemma finite_neg_lt0' (m : positive) e H : (B2R (B754_finite true m e H : f64) < 0)%R.
 Proof. simpl. now apply F2R_lt_0. Qed.
@@ -978,7 +980,7 @@ Proof.
   - rewrite Rcompare_Gt; [reflexivity|]. apply (finite_pos_gt0' m e H).
 Qed.
 
-Open Scope Z_scope.
+Local Open Scope Z_scope.
 Lemma cond_Zopp_if s z : cond_Zopp s z = if s then - z else z.
 Proof. now destruct s. Qed.
 
@@ -1037,7 +1039,7 @@ Qed.
 
 
 (* ================= (9) ByKey ================= *)
-Open Scope Z_scope.
+Local Open Scope Z_scope.
 Definition fkeyvals (ms : list famap) (key : Z) : list f64 :=
   flat_map (fun m => match falookup m key with Some v => [v] | None => [] end) ms.
 
@@ -1079,4 +1081,157 @@ Proof.
   unfold ffind_max_by_key, ffind_ext_by_key. destruct ms as [|m0 ms]; [reflexivity|].
   destruct (falookup m0 key) as [v0|] eqn:E; [|reflexivity].
   rewrite bykey_fold. f_equal. unfold ffind_max, fkeyvals. simpl flat_map. rewrite E. reflexivity.
+Qed.
+
+(* ================= (10) Range terminates ================= *)
+Local Open Scope Z_scope.
+
+(* position of a float64 on the number line, as an integer: the 63 magnitude bits, negated for negative
+   values (both zeros at 0) *)
+Definition fmag (m : positive) (e : Z) : Z :=
+  if Z.pos m <? two52 then Z.pos m else (e + 1075) * two52 + (Z.pos m - two52).
+Definition ford (x : f64) : Z :=
+  match x with
+  | B754_zero _ => 0
+  | B754_infinity s => if s then - (2047 * two52) else 2047 * two52
+  | B754_nan => 0
+  | B754_finite s m e _ => if s then - fmag m e else fmag m e
+  end.
+
+Lemma fmag_range m e : bounded 53 1024 m e = true -> 0 < fmag m e < 2047 * two52.
+Proof.
+  intros H. unfold fmag. destruct (bounded_cases m e H) as [(Hm & He)|(Hm & He)];
+    destruct (Z.ltb_spec (Z.pos m) two52); unfold two52 in *; lia.
+Qed.
+
+Lemma fmag_lt m1 e1 m2 e2 : bounded 53 1024 m1 e1 = true -> bounded 53 1024 m2 e2 = true ->
+  match Z.compare e1 e2 with Lt => Lt | Gt => Gt | Eq => Pos.compare_cont Eq m1 m2 end = Lt ->
+  fmag m1 e1 < fmag m2 e2.
+Proof.
+  intros H1 H2 Hc. unfold fmag.
+  assert (Hlt : e1 < e2 \/ (e1 = e2 /\ Z.pos m1 < Z.pos m2)).
+  { destruct (Z.compare_spec e1 e2) as [E|E|E]; try discriminate; [right|left; exact E].
+    split; [exact E|]. change (Pos.compare_cont Eq m1 m2) with (Pos.compare m1 m2) in Hc.
+    now apply Pos.compare_lt_iff in Hc. }
+  destruct (bounded_cases m1 e1 H1) as [(Hm1 & He1)|(Hm1 & He1)];
+    destruct (bounded_cases m2 e2 H2) as [(Hm2 & He2)|(Hm2 & He2)];
+    destruct (Z.ltb_spec (Z.pos m1) two52); destruct (Z.ltb_spec (Z.pos m2) two52);
+    unfold two52 in *; lia.
+Qed.
+
+Lemma ford_lt x y : flt x y = true -> ford x < ford y.
+Proof.
+  unfold flt, Bltb, SFltb.
+  destruct x as [sx|sx| |sx mx ex Hx]; destruct y as [sy|sy| |sy my ey Hy]; simpl B2SF; simpl SFcompare;
+    try discriminate.
+  - destruct sy; [discriminate|]. intros _. simpl. unfold two52. lia.
+  - destruct sy; [discriminate|]. intros _. simpl. generalize (fmag_range my ey Hy). unfold two52. lia.
+  - destruct sx; [|discriminate]. intros _. simpl. unfold two52. lia.
+  - destruct sx, sy; try discriminate. intros _. simpl. unfold two52. lia.
+  - destruct sx; [|discriminate]. intros _. simpl. generalize (fmag_range my ey Hy). unfold two52. destruct sy; lia.
+  - destruct sx; [|discriminate]. intros _. simpl. generalize (fmag_range mx ex Hx). unfold two52. lia.
+  - destruct sy; [discriminate|]. intros _. simpl. generalize (fmag_range mx ex Hx). unfold two52. destruct sx; lia.
+  - generalize (fmag_range mx ex Hx) (fmag_range my ey Hy). intros Rx Ry.
+    destruct sx, sy; simpl; try discriminate; try (intros _; lia).
+    + intros Hc. cut (fmag my ey < fmag mx ex); [lia|]. apply fmag_lt; auto.
+      destruct (Z.compare_spec ex ey) as [E|E|E]; subst.
+      * rewrite Z.compare_refl. destruct (Pos.compare_cont Eq mx my) eqn:Ec; try discriminate.
+        change (Pos.compare_cont Eq mx my) with (Pos.compare mx my) in Ec.
+        change (Pos.compare_cont Eq my mx) with (Pos.compare my mx).
+        rewrite Pos.compare_antisym, Ec. reflexivity.
+      * discriminate.
+      * apply Z.compare_lt_iff in E. rewrite E. reflexivity.
+    + intros Hc. apply fmag_lt; auto.
+      destruct (ex ?= ey); try discriminate; auto.
+      destruct (Pos.compare_cont Eq mx my); try discriminate; auto.
+Qed.
+
+(* every Range[float64] call returns: a budget of (position of end) - (position of the counter) iterations,
+   at most 2^64, is never used up *)
+Lemma frange_up_terminates : forall fuel i step e acc,
+  (Z.to_nat (ford e - ford i) <= fuel)%nat -> frange_up fuel i step e acc <> FFuel.
+Proof.
+  induction fuel as [|f IH]; intros i step e acc Hf; rewrite frange_up_eq.
+  - destruct (flt i e) eqn:H1; [|discriminate].
+    destruct (negb (flt (round2 i) e)); [discriminate|].
+    destruct (fgt (fadd i step) i) eqn:H3; simpl negb; cbv iota; [|discriminate].
+    exfalso. apply ford_lt in H1. unfold fgt in H3. apply ford_lt in H3.
+    lia.
+  - destruct (flt i e) eqn:H1; [|discriminate].
+    destruct (negb (flt (round2 i) e)); [discriminate|].
+    destruct (fgt (fadd i step) i) eqn:H3; simpl negb; cbv iota; [|discriminate].
+    apply ford_lt in H1. unfold fgt in H3. apply ford_lt in H3.
+    apply IH. lia.
+Qed.
+Lemma frange_down_terminates : forall fuel i astep e acc,
+  (Z.to_nat (ford i - ford e) <= fuel)%nat -> frange_down fuel i astep e acc <> FFuel.
+Proof.
+  induction fuel as [|f IH]; intros i astep e acc Hf; rewrite frange_down_eq.
+  - destruct (flt e i) eqn:H1; [|discriminate].
+    destruct (negb (flt e (round2 i))); [discriminate|].
+    destruct (flt (fsub i astep) i) eqn:H3; simpl negb; cbv iota; [|discriminate].
+    exfalso. apply ford_lt in H1. lia.
+  - destruct (flt e i) eqn:H1; [|discriminate].
+    destruct (negb (flt e (round2 i))); [discriminate|].
+    destruct (flt (fsub i astep) i) eqn:H3; simpl negb; cbv iota; [|discriminate].
+    apply ford_lt in H1. apply ford_lt in H3.
+    apply IH. lia.
+Qed.
+
+Lemma ford_bound x : - (2047 * two52) <= ford x <= 2047 * two52.
+Proof.
+  destruct x as [s|s| |s m e H]; simpl; unfold two52; try lia.
+  - destruct s; lia.
+  - generalize (fmag_range m e H). unfold two52. destruct s; lia.
+Qed.
+
+(* 2 * 2047 * 2^52 < 2^64 iterations always suffice: with such a budget the model answers FFuel on no
+   arguments at all *)
+Lemma frange_terminates cap args : 2 * (2047 * two52) <= Z.of_nat cap ->
+  frange cap args <> FFuel /\ frange_right cap args <> FFuel.
+Proof.
+  intros Hc.
+  assert (G : forall s st e,
+    (if fgt e fpz then frange_up cap s st e [] else frange_down cap s (fabs_go st) e []) <> FFuel).
+  { intros s st e. generalize (ford_bound s) (ford_bound e). intros Bs Be.
+    set (B := 2047 * two52) in *. clearbody B.
+    destruct (fgt e fpz); [apply frange_up_terminates|apply frange_down_terminates]; lia. }
+  assert (F : frange cap args <> FFuel).
+  { unfold frange. destruct args as [|a [|b [|c [|d args]]]]; try apply G; try discriminate.
+    destruct (fgt a c && fgt c fpz); [discriminate|]. destruct (feq b fpz); [discriminate|].
+    destruct (flt b fpz && fgt c a); [discriminate|]. apply G. }
+  split; [exact F|]. unfold frange_right. destruct (frange cap args); try discriminate. now elim F.
+Qed.
+
+(* ================= (11) non-vacuity ================= *)
+Local Open Scope R_scope.
+
+(* non-vacuity of fsum_exact: [1; 2; 3] (as float64(1), float64(2), float64(3)) meets its hypotheses *)
+Lemma fsum_exact_example :
+  let l := [f_of_int 1; f_of_int 2; f_of_int 3] in
+  Forall (fun x => is_finite x = true) l /\
+  (forall k, (k <= length l)%nat ->
+     fmt64 (rsum (firstn k l)) /\ Rabs (rsum (firstn k l)) < bpow radix2 1024) /\
+  B2R (fsum l) = 6.
+Proof.
+  intros l.
+  destruct (f_of_int_exact 1) as (F1 & E1); [reflexivity|].
+  destruct (f_of_int_exact 2) as (F2 & E2); [reflexivity|].
+  destruct (f_of_int_exact 3) as (F3 & E3); [reflexivity|].
+  assert (Hl : Forall (fun x => is_finite x = true) l) by (repeat constructor; assumption).
+  assert (Hb : forall n, (Z.abs n < 2 ^ 53)%Z -> Rabs (IZR n) < bpow radix2 1024).
+  { intros n Hn. rewrite <- abs_IZR. change (bpow radix2 1024) with (IZR (2 ^ 1024)).
+    apply IZR_lt. apply Z.lt_trans with (1 := Hn). reflexivity. }
+  assert (Hp : forall k, (k <= length l)%nat ->
+     fmt64 (rsum (firstn k l)) /\ Rabs (rsum (firstn k l)) < bpow radix2 1024).
+  { intros k Hk. simpl in Hk.
+    assert (Hr : exists n, (Z.abs n < 2 ^ 53)%Z /\ rsum (firstn k l) = IZR n).
+    { destruct k as [|[|[|[|k]]]]; [| | | |lia]; unfold rsum, l; cbn [firstn map fold_left]; rewrite ?E1, ?E2, ?E3.
+      - exists 0%Z. split; [reflexivity|lra].
+      - exists 1%Z. split; [reflexivity|lra].
+      - exists 3%Z. split; [reflexivity|lra].
+      - exists 6%Z. split; [reflexivity|lra]. }
+    destruct Hr as (n & Hn & ->). split; [now apply fmt64_int|now apply Hb]. }
+  split; [exact Hl|]. split; [exact Hp|].
+  destruct (fsum_exact l Hl Hp) as (_ & ->). unfold rsum, l. cbn [map fold_left]. rewrite E1, E2, E3. lra.
 Qed.
